@@ -102,6 +102,12 @@ def determinism(argv):
                  ' (pin is load-bearing)' if diff_ad else ''))
         sys.stdout.flush()
     os.makedirs(os.path.join(HERE, 'evidence'), exist_ok=True)
-    json.dump({'wall_s': round(time.time() - t0, 1), 'worlds': report}, open(os.path.join(HERE, 'evidence', 'selftest-determinism.json'), 'w'), indent=1)
+    path = os.path.join(HERE, 'evidence', 'selftest-determinism.json')
+    try:
+        worlds = json.load(open(path)).get('worlds', {})
+    except Exception:
+        worlds = {}
+    worlds.update(report)            # a partial invocation refreshes only the worlds it ran
+    json.dump({'last_invocation_wall_s': round(time.time() - t0, 1), 'worlds': worlds}, open(path, 'w'), indent=1, sort_keys=True)
     print('selftest-determinism: %d worlds, %d failing, %.0f s' % (len(ids), bad, time.time() - t0))
     return 1 if bad else 0
